@@ -10,6 +10,7 @@ namespace hist {
 HistSim::HistSim(const Options& o, Transcript* t, bool real)
     : opt(o), tmpAlloc_(o.instBase + 99, nullptr), t_(t), real_(real) {
   docs_.resize(size_t(o.ndocs));
+  poolsBefore_.assign(size_t(o.ndocs), SIZE_MAX);
   for (int d = 0; d < o.ndocs; d++) {
     allocs_.emplace_back(new SimAllocator(o.instBase + d, t));
     allocs_.back()->moveOnRealloc = o.moveRealloc;
@@ -644,6 +645,39 @@ void HistSim::checkAll(const Op& op, size_t ix, bool relaxedDoc, int relaxedIdx)
       }
       g_stats.c["states.hash_xor"] ^= mix64(rep.stateHash);
       count("inspect.checks");
+      if (!leaks && opt.replica == 0 && (opt.mode == "free" || opt.mode == "limit")) {
+        // de-duplication: equal copied strings are stored once. Values created by the API from
+        // MsgPackBinary/MsgPackExtension bypass the lookup, so each may have a node of its own.
+        std::set<std::string> distinct;
+        size_t binLike = 0;
+        visitc(ds.model, [&](const Val& x) {
+          if (x.k == K::Str && !x.linked)
+            distinct.insert(x.s);
+          if (x.k == K::Raw) {
+            distinct.insert(x.s);
+            if (!x.s.empty() && (unsigned char)x.s[0] >= 0x80)
+              binLike++;
+          }
+          for (auto& m : x.o)
+            distinct.insert(m.first);
+        });
+        auto g = verif::Inspector::geometry(*ds.doc);
+        if (g.stringNodes < distinct.size() || g.stringNodes > distinct.size() + binLike)
+          violate("C06:string-dedup", "the document holds " + std::to_string(g.stringNodes) + " string blocks for " +
+                                          std::to_string(distinct.size()) + " distinct copied strings (+" +
+                                          std::to_string(binLike) + " binary values)");
+        if (!distinct.empty())
+          count("probe.dedup_checked");
+        // reuse: a new pool is requested only when the free list is empty
+        if (g.pools > poolsBefore_[size_t(d)] && g.freeListLen > 0 && poolsBefore_[size_t(d)] != SIZE_MAX)
+          violate("C06:no-reuse", "a new pool was requested while " + std::to_string(g.freeListLen) +
+                                      " released slot(s) were still on the free list");
+        if (g.freeListLen)
+          count("probe.free_list_nonempty");
+        poolsBefore_[size_t(d)] = g.pools;
+      } else {
+        poolsBefore_[size_t(d)] = SIZE_MAX;
+      }
     }
   }
   checkRefs();
@@ -1477,6 +1511,7 @@ void HistSim::opDoc(const Op& op, size_t ix) {
   Judge j;
   beginOp(j, d, {});
   j.hasReturn = false;
+  poolsBefore_[size_t(d)] = poolsBefore_[size_t(s)] = SIZE_MAX;  // pools change hands or are rebuilt
   // does another document use d's current allocator? (evaluated before the model changes)
   bool sharedBefore = false;
   for (int q = 0; q < ndocs(); q++)
